@@ -32,7 +32,7 @@ def run(ctx):
     ctx.assumptions += [
         "the theorems are about the allocation model's panic and hang exits under range conditions (free lists inside their tables, a successful chain walk before extend_chain); that the damaged states reachable from permissive open satisfy what each call needs is decided by the campaign, not proved",
         "the model's write path is tied to the code byte for byte on valid files (C02/C03/C15 lock-step); on damaged files only the implementation is run (the model is not started from foreign tables)",
-        "a stream that a handle is bound to is not removed or overwritten through another path in these histories (what a handle means then is C07's subject); two handles on one stream are not generated",
+        "in half of the cases a stream that a handle is bound to is also removed, overwritten or opened a second time (what such a handle means is not judged — C07 speaks of a handle while its stream exists — only that nothing panics or hangs)",
         "debug assertions count as panics (the harness builds the crate with debug assertions on)",
     ]
     if not (lean_ok and harness_ok):
@@ -95,7 +95,7 @@ def run(ctx):
         ctx.coverage.update({
             "evaluations": stat.get("ops", 0) + stat2.get("ops", 0),
             "distinct_nontrivial": stat.get("accepted", 0),
-            "rule": "bases: library-made snapshots and synthesised foreign layouts; per case 1-3 corruptions — field-level (header fields, DIFAT/FAT/MiniFAT cells incl. cycles, self-loops, out-of-range and special values, directory links/types/sizes/start sectors/names, truncation/extension) and targeted at what open does not walk (mini stream length/start, stream length across the cutoff, stream start elsewhere, chain cells cut/looped/crossed, MiniFAT start/count) — kept when permissive open accepts; then 2-13 calls (open handles with write/set_len/seek/read/flush/close on sizes around 64/4096, put, remove_stream, create_storage, remove_storage_all, get, flush, final drop) in a worker thread; oracle: no panic (hook records file:line), no call longer than 15 s. distinct_nontrivial = accepted damaged images; evaluations = API calls on them + lock-step calls of the model tie",
+            "rule": "bases: library-made snapshots and synthesised foreign layouts; per case 1-3 corruptions — field-level (header fields, DIFAT/FAT/MiniFAT cells incl. cycles, self-loops, out-of-range and special values, directory links/types/sizes/start sectors/names, truncation/extension) and targeted at what open does not walk (mini stream length/start, stream length across the cutoff, stream start elsewhere, chain cells cut/looped/crossed, MiniFAT start/count) — kept when permissive open accepts; then 2-13 calls (in half of the cases also on streams a handle is bound to: removal, overwrite, a second handle) (open handles with write/set_len/seek/read/flush/close on sizes around 64/4096, put, remove_stream, create_storage, remove_storage_all, get, flush, final drop) in a worker thread; oracle: no panic (hook records file:line), no call longer than 15 s. distinct_nontrivial = accepted damaged images; evaluations = API calls on them + lock-step calls of the model tie",
             "cases": stat.get("cases", 0),
             "corpus_cases": corpus_cases,
             "accepted_damaged_images": stat.get("accepted", 0),
